@@ -73,6 +73,7 @@ DEFAULT_CFG = {
     "c_drop_first": 0,        # scripted fault: the first N client datagrams are lost
     "blackout_from": None,    # scripted fault: every datagram sent at/after this time (s after start) is lost
     "blackout_until": None,   # ... and before this time (None = forever)
+    "rebind_at": None,        # seconds after start: the client's source address changes (scripted NAT rebinding)
     "blackouts": None,        # [(from, until), ...] seconds after start: everything sent in a window is lost
     "c_cert": None,           # name of a vlib.certs chain the CLIENT presents on CertificateRequest
     "tickets": None,          # {"client": [], "server": {}} session-ticket store shared between worlds
@@ -410,6 +411,14 @@ class NetSim:
         conn = ep.conn
         for m in self.monitors:
             m.before_send(self, ep)
+        if (ep.name == "c" and self.cfg.get("rebind_at") is not None and self.client_addr == C_ADDR
+                and self.now - self.t0 >= self.cfg["rebind_at"]):
+            # scripted NAT rebinding: from now on the client's datagrams carry another source address
+            self.client_addr = C_ADDR2
+            for d0 in self.inflight:
+                if d0.src == "c":
+                    d0.src_addr = C_ADDR2
+            self.log("scripted_rebind", (C_ADDR2,))
         out = conn.datagrams_to_send(now=self.now)
         recs_all = []
         for data, addr in out:
@@ -693,10 +702,20 @@ class NetSim:
             if (all(e.terminated is not None or e.conn is None for e in self.ep.values())
                     and not self.inflight and not self._timers()):
                 return "terminated"
-            self.nsteps += 1
             self.inflight.sort(key=lambda d: (d.arrival, d.id))
             timers = self._timers()
             first = self.inflight[0] if self.inflight else None
+            # an application that acts on its own schedule (guard ("t", seconds)) wakes up by itself
+            wake = None
+            for e in self.ep.values():
+                if e.conn is not None and e.terminated is None and e.hs_done and e.op_i < len(e.ops):
+                    g = e.ops[e.op_i].get("g", "hs")
+                    if isinstance(g, tuple) and g[0] == "t" and self.t0 + g[1] > self.now:
+                        wake = self.t0 + g[1] if wake is None else min(wake, self.t0 + g[1])
+            if wake is not None and (first is None or wake < first.arrival) and (not timers or wake < timers[0][0]):
+                self.now = wake
+                continue
+            self.nsteps += 1
             # menu: alternative 0 is the default (earliest event)
             menu = []
             if first is not None and (not timers or first.arrival <= timers[0][0]):
